@@ -237,12 +237,11 @@ func (t *FSTree) readHeader(id oid.ID, f *os.File, buf []byte) ([]byte, io.ReadS
 				}
 			}
 
-			rsc := io.ReadSeekCloser(f)
-			if buffered := uint32(size - offset); l > buffered {
-				rsc = &limitedFileReader{
-					ReadSeekCloser: f,
-					limit:          int64(l - buffered),
-				}
+			// the rest of the file belongs to other objects, never expose it:
+			// if the object is buffered completely, the stream is empty
+			rsc := &limitedFileReader{
+				ReadSeekCloser: f,
+				limit:          int64(l) - int64(size-offset),
 			}
 
 			return buf[offset:size], rsc, nil
